@@ -75,6 +75,8 @@ enum urcu_verif_point_id {
 	URCU_VP_BP_ADD_THREAD,		/* marker */
 	URCU_VP_BP_ARENA_NEW_CHUNK,	/* marker */
 	URCU_VP_BP_ARENA_IN_PLACE,	/* marker */
+	URCU_VP_BP_REGISTER_ENTRY,	/* urcu_bp_register entered, signals not yet blocked */
+	URCU_VP_BP_UNREGISTER_ENTRY,	/* urcu_bp_unregister entered, signals not yet blocked */
 
 	/* urcu-wait */
 	URCU_VP_WAIT_WAKER_MID,		/* WAKEUP stored, before RUNNING test */
